@@ -52,9 +52,9 @@ impl<A: Send + 'static> CellWeakForwardRef<A> {
         *x = Some(Cell::downgrade(c))
     }
 
-    fn unwrap(&self) -> Cell<A> {
+    fn upgrade(&self) -> Option<Cell<A>> {
         let x = self.data.read();
-        x.clone().unwrap().upgrade().unwrap()
+        x.clone().and_then(|c| c.upgrade())
     }
 }
 
@@ -150,7 +150,12 @@ impl<A: Send + 'static> Cell<A> {
                     &sodium_ctx2,
                     NodeName::CELL_HOLD,
                     move || {
-                        let c = c.unwrap();
+                        // the cell may have been dropped already, by a handler that ran earlier in this
+                        // transaction (the node was queued before)
+                        let c = match c.upgrade() {
+                            Some(c) => c,
+                            None => return,
+                        };
                         let firing_op = stream.with_firing_op(|firing_op| firing_op.clone());
                         if let Some(firing) = firing_op {
                             let is_first = c.with_data(|data: &mut CellData<A>| {
